@@ -771,3 +771,27 @@ def P2(chk, ex, path, name, pre, goal, desc, regions):
     return chk.prove(name, list(st.pc) + pre, goal, desc=desc, describe=ex.describe_fn(path) if hasattr(ex, "describe_fn") else describe_path(ex, st),
                      replay=ex.replay_fn(path) if hasattr(ex, "replay_fn") else None, regions=regions,
                      sample=f"{ex.kind}: first-run outcome={k}:{exc_class(v)} vs replay of the recorded FAIL")
+
+
+def c17_user_logger_gated(chk, ex):
+    """the logger inside StepContext / WaitForConditionCheckContext is a context Logger on the same state, carrying the operation's identifiers"""
+    state = ex.inputs["state"]
+    ident = ex.inputs["ident"]
+    for path in ex.paths:
+        k, v, st = path
+        for i, e in user_calls(st):
+            ctx_arg = e.args[-1] if ex.kind == "wfc" else e.args[0]
+            ok = isinstance(ctx_arg, Ref) and "logger" in st.get(ctx_arg)
+            goal = z3.BoolVal(ok)
+            if ok:
+                lg = st.get(ctx_arg)["logger"]
+                ok2 = isinstance(lg, Ref) and getattr(lg.cls, "name", "") == "Logger" and st.get(lg)["_execution_state"] == state
+                goal = z3.BoolVal(bool(ok2))
+                if ok2:
+                    d = st.get(st.get(lg)["_default_extra"])["e"]
+                    ids = st.get(ident)
+                    lr = last_read_before(st, i)
+                    goal = z3.And(goal, d.get("executionArn", (F, None))[0], d.get("operationId", (F, None))[0] == ops.truth(st, ids["operation_id"]),
+                                  z3.Implies(d.get("operationId", (F, None))[0], ops.values_equal(st, d["operationId"][1], ids["operation_id"]) if "operationId" in d else F),
+                                  d.get("attempt", (F, None))[0], ops.zint(d["attempt"][1]) == attempt_of(st, lr) + 1 if "attempt" in d else F)
+            P(chk, ex, path, f"C17.{ex.kind}.user_logger_gated", None, goal, "the logger handed to the user function is gated by the same execution state and carries the execution ARN, the operation id and the attempt number")
